@@ -137,9 +137,16 @@ def r18_2(F, R, tier):
     if len(have) < 3:
         raise AnchorError("R18.2: entry points missing: %s" % (set(entries) - set(have)))
     kinds = ("K1", "K2", "K3", "K4")
-    run_pps(F, R, "R18.2", have, kinds, {"boxworks.lib", "common.lib"}, crate_scope={"boxworks.lib", "common.lib"},
+    seen18 = run_pps(F, R, "R18.2", have, kinds, {"boxworks.lib", "common.lib"}, crate_scope={"boxworks.lib", "common.lib"},
             armed=lambda fn, s: True, fn_filter=lambda fn: "boxworks::lang::" in fn.name or "boxworks::ds::" in fn.name or fn.crate == "common.lib",
             floor_fns=80, floor_sites=5, what=": arbitrary text must give a list or located errors")
+    import json, os
+    from .common import recursion_rule
+    tab = json.load(open(os.path.join(os.path.dirname(os.path.dirname(os.path.dirname(os.path.abspath(__file__)))), "tables", "recursion_audited.json")))
+    from ..pps_run import callgraph
+    nrec = recursion_rule(F, R, "R18.10", "the box-language parser, formatter and printers", seen18, {"boxworks.lib", "common.lib"}, tab,
+                          cg=callgraph(F, {"boxworks.lib", "common.lib"}), name_filter=lambda f: "boxworks::lang::" in f.name or "boxworks::ds::" in f.name or f.crate == "common.lib")
+    R.floor("R18.10", "recursion cycles among the reachable box-language functions", nrec, 3)
 
 
 def r18_3(F, R):
